@@ -21,6 +21,7 @@ def run(tier):
         rule_invalid_before_write(rep, funcs)
         rule_restore(rep, funcs)
         rule_epoch(rep, funcs)
+        rule_writeback(rep, funcs)
         for w in ws:
             rule_k0_tables(rep, funcs, w, hyps)
         if "FiniteStrain" in unit:
